@@ -191,6 +191,7 @@ def mutator_calls(o, rng):
         "sq.setSR": ("sq", lambda: sq.setSR(SR * 2)),
         "sq.setChannelAmplitude": ("sq", lambda: sq.setChannelAmplitude(c, 3)),
         "sq.setChannelOffset": ("sq", lambda: sq.setChannelOffset(c, 0.5)),
+        "sq.setChannelVoltageRange": ("sq", lambda: sq.setChannelVoltageRange(c, 5, 0.25)),
         "sq.setChannelDelay": ("sq", lambda: sq.setChannelDelay(c, 5 / SR)),
         "sq.setChannelFilterCompensation": ("sq", lambda: sq.setChannelFilterCompensation(c, "LP", order=2, f_cut=SR * 0.3)),
         "sq.setSequencing*": ("sq", lambda: (sq.setSequencingGoto(1, 2), sq.setSequencingNumberOfRepetitions(2, 7))),
